@@ -133,6 +133,7 @@ func parseHeaders(h *protocol.ResponseHeader, buf []byte) (int, error) {
 	s.B = buf
 	s.DisableNormalizing = h.IsDisableNormalizing()
 	var err error
+	seenTrailer := false
 	for s.Next() {
 		if len(s.Key) > 0 {
 			switch s.Key[0] | 0x20 {
@@ -184,7 +185,13 @@ func parseHeaders(h *protocol.ResponseHeader, buf []byte) (int, error) {
 					continue
 				}
 				if utils.CaseInsensitiveCompare(s.Key, bytestr.StrTrailer) {
-					err = h.Trailer().SetTrailers(s.Value)
+					// several Trailer fields combine into one list (RFC 7230, section 3.2.2)
+					if seenTrailer {
+						err = h.Trailer().AddTrailers(s.Value)
+					} else {
+						seenTrailer = true
+						err = h.Trailer().SetTrailers(s.Value)
+					}
 					continue
 				}
 			}
